@@ -4,8 +4,10 @@
 From Coq Require Import List Bool.
 From PMS Require Import Base.PyStr Model.ConfigSyntax Model.ConfigCheck Spec.ConfigSpec.
 
-Lemma check_SerialGw (orc : avop -> pstr -> pstr -> option bool) : check_class orc SerialGw = true.
+Lemma check_SerialGw (orc : avop -> pstr -> pstr -> option bool) (cont : pstr -> bool) :
+  check_class orc cont SerialGw = true.
 Proof. vm_cast_no_check (eq_refl true). Qed.
 
-Lemma check_AsyncSerialGw (orc : avop -> pstr -> pstr -> option bool) : check_class orc AsyncSerialGw = true.
+Lemma check_AsyncSerialGw (orc : avop -> pstr -> pstr -> option bool) (cont : pstr -> bool) :
+  check_class orc cont AsyncSerialGw = true.
 Proof. vm_cast_no_check (eq_refl true). Qed.
